@@ -190,6 +190,8 @@ def run_rs(ctx, g, c):
     else:
         libll = c["profile"]
     idx = [int(v) for v in choices[-1]["out"]] if choices else None
+    if idx is None and c["shuffle"]:
+        idx = list(evaluated)     # shuffled without a `choice` draw: the model takes the observed order
     m = ctx.model({"op": "reject.sample", "libLL": core.bits_list(libll), "lnp": core.bits_list(lib.lnp),
                    "nPrior": c["n_prior"], "maxPost": c["max_post"], "nLinear": c["n_linear"], "idx": idx,
                    "uu": core.bits_list(rounds[0][1])})
@@ -254,7 +256,7 @@ def run_it(ctx, g, c):
     nontriv = 0 < len(groups) < len(evaluated)
     growth_rounds = len(rounds) - 1
     ctx.count("it:growth rounds>=1" if growth_rounds >= 1 else "it:no growth")
-    if c["shuffle"] and ob["choices"]:
+    if c["shuffle"] and (ob["choices"] or evaluated != list(range(len(evaluated)))):
         ctx.count("it:shuffle")
     key = ("it", c["kind"], c["path"], c["shuffle"], min(growth_rounds, 2), c["n_linear"] > 1, c["pool"] is not None) if nontriv else None
     ctx.evaluated(REL_IT, key, sample=dict(inp, returned_rows=groups[:8]))
